@@ -83,6 +83,10 @@ pub struct Profile {
     /// prefer sequential (single replica, deterministic order) sources
     pub prefer_iter_source: bool,
     pub small_batches: bool,
+    /// weights of the delay selector kinds (link, replica, every k-th message, inbound of a host)
+    pub w_delay: [u32; 4],
+    /// probability (in quarters) that a configuration injects delays
+    pub delay_quarters: usize,
 }
 
 impl Profile {
@@ -109,6 +113,8 @@ impl Profile {
             pads: false,
             prefer_iter_source: false,
             small_batches: false,
+            w_delay: [3, 3, 3, 2],
+            delay_quarters: 2,
         }
     }
 }
@@ -632,12 +638,12 @@ impl<'a, 'p> Gen<'a, 'p> {
     }
 
     pub fn delays(&mut self) -> Option<DelaySpec> {
-        if self.ch.flag(1, 2) {
+        if self.ch.flag(self.p.delay_quarters, 4) {
             let n = 1 + self.ch.below(2);
             let seed = self.ch.next() as u64;
             let slow = (0..n)
                 .map(|_| {
-                    let kind = self.ch.below(3) as u8;
+                    let kind = self.ch.weighted(&self.p.w_delay.clone()) as u8;
                     (
                         kind,
                         self.ch.range(0, 12) as u64,
